@@ -13,6 +13,7 @@ RULE = ('paths enumerated from the dumped tree (each option/section x {plain, =i
         'qualifier; distinct by path')
 F = CFGF
 
+LONG = b'section_with_a_very_long_name_' + b'x' * 40
 N = [Opt('int', b'z', 0, 1)]
 MM = [Opt('int', b'a', 0, 1), Opt('sec', b'n', F['MULTI'] | F['TITLE'], None, N), Opt('str', b'b', 0, b'x')]
 S = [Opt('int', b'a', 0, 2), Opt('sec', b'deeper', 0, None, [Opt('int', b'z', 0, 9)]), Opt('sec', b'deep', 0, None, N)]
@@ -22,11 +23,14 @@ ROOT = [Opt('int', b'x', 0, 0), Opt('sec', b's', 0, None, S), Opt('sec', b'm', F
         # `ee` is declared before `e`, `deeper` before `deep` (in S): a step names a section exactly, never by prefix
         Opt('sec', b'ee', 0, None, T), Opt('sec', b'e', F['MULTI'], None, T),
         # a titled section that is NOT multi: its one instance carries a title from the text; a qualifier never resolves
-        Opt('sec', b'st', F['TITLE'] | F['NODEFAULT'], None, T)]
+        Opt('sec', b'st', F['TITLE'] | F['NODEFAULT'], None, T),
+        # a 70-byte section name and a sibling named by its first 63 bytes; a free-form section (a path never creates a key)
+        Opt('sec', LONG[:63], 0, None, [Opt('int', b'a', 0, 63)]), Opt('sec', LONG, 0, None, [Opt('int', b'a', 0, 70), Opt('sec', LONG, F['MULTI'], None, N)]),
+        Opt('sec', b'kv', F['KEYSTRVAL'], None, [Opt('int', b'lvl', 0, 2)])]
 TEXT = (b'm { a = 10 n u { z = 1 } n "v|w" { z = 2 } n "q\'r" { z = 3 } n "b\\\\s" { z = 4 } }\n'
         b'm { a = 11 }\nm { a = 12 n "1" { z = 5 } }\n'
         b't one { a = 5 }\nt "tw o" { a = 6 }\nt "01" { a = 7 }\nt "=" { a = 8 }\nt "k=v" { a = 9 }\nt "a=b=c" { a = 10 }\nt "" { a = 11 }\n'
-        b'st main { a = 12 }\n')
+        b'st main { a = 12 }\n' + LONG + b' { a = 71 ' + LONG + b' { z = 5 } }\nkv { k = v lvl = 3 }\n')
 
 SCHEMA_BY_NAME = {}
 
@@ -217,7 +221,7 @@ def generate(rng, tier):
     for p in good:
         bad += broken(p, rng)
     bad += [b'=', b'|', b'||', b'', b"'", b'm=', b'm=|a', b't=|a', b'st=main|a', b"st='main'|a", b'st=0|a', b'st=main', b's=0|a', b'e|a', b'e=0|a', b'e=0', b'l|a', b'x|a', b'x=0', b'm=1|n|z',
-            b'm=1|n=u|z', b'nosuch', b'nosuch|a', b's|de|z', b's|d|z', b's|dee|z', b's|deepe|z', b'e|a', b'de|z', b's|nosuch', b'm=0|n=nosuch|z', b'm=0|n=u', b'm=0|n=u|', b'm|=x', b'm=0|=x', b'm=0|n=u||=|']
+            b'm=1|n=u|z', b'nosuch', b'nosuch|a', b'kv|nokey', b'kv|k|x', b'kv|', b'kv|nokey|', LONG[:64] + b'|a', LONG + b'x|a', b's|de|z', b's|d|z', b's|dee|z', b's|deepe|z', b'e|a', b'de|z', b's|nosuch', b'm=0|n=nosuch|z', b'm=0|n=u', b'm=0|n=u|', b'm|=x', b'm=0|=x', b'm=0|n=u||=|']
     bad = list(dict.fromkeys(bad))
     allp = [(p, 'good') for p in good] + [(p, 'broken') for p in bad]
     secp = list(dict.fromkeys([p.rsplit(b'|', 1)[0] for p in good if b'|' in p] + [b'm', b't=one', b't', b's', b'e', b's|deep', b'm=0|n']))
